@@ -96,6 +96,14 @@ class InstCase:
 
 
 def run_case(ctx, case, seed, observed, mode=None, tie=False, reuse=None, inst=None):
+    if inst in ("shared", "shared-warm") and case.family in ("stream", "budget"):
+        findings, info = oracles.repro_shared_instance(case, seed, warm=(inst == "shared-warm"))
+        skipped = str(info.get("raised", "")).startswith("RuntimeError: Skip")
+        ctx.count("shared_instance_" + case.family + ("_warm_start" if inst == "shared-warm" else "") + ("_skipped" if skipped else ""))
+        if skipped:
+            return
+        _report(ctx, case, seed, observed, mode, tie, reuse, inst, findings, info)
+        return
     if inst is not None and case.family not in ("pool", "pool_ma"):
         ctx.count("random_state_instance_" + case.family)
         case = InstCase(case, seed)
@@ -118,6 +126,10 @@ def run_case(ctx, case, seed, observed, mode=None, tie=False, reuse=None, inst=N
         findings, info = oracles.repro_estimator_reuse(case, seed, tie_level=reuse)
     else:
         findings, info = oracles.repro_estimator(case, seed)
+    _report(ctx, case, seed, observed, mode, tie, reuse, inst, findings, info)
+
+
+def _report(ctx, case, seed, observed, mode, tie, reuse, inst, findings, info):
     ok = "raised" not in info
     ctx.case((case.key, mode, seed, tie, reuse, inst), ok, sample=dict(case=case.key, mode=mode, seed=seed, tied=tie, reuse=reuse, random_state_instance=inst, findings=[f["kind"] for f in findings]))
     if reuse is not None:
@@ -215,7 +227,7 @@ def correspond(ctx):
     observed = {}
     t0 = time.time()
     crs_correspondence(ctx, 150 if not ctx.thorough else 1500)
-    cases = list(zoo.cases())
+    cases = [c for c in zoo.cases() if "inner-rs-none" not in c.config]
     cases.sort(key=lambda c: (c.cls_name not in flipped, c.cls_name not in leads, c.family, c.cls_name, c.config))
     seeds = [ctx.seed] if not ctx.thorough else [ctx.seed + 101 * k for k in range(4)]
     for i, case in enumerate(cases):
@@ -245,6 +257,11 @@ def correspond(ctx):
             else:
                 run_case(ctx, case, seed, observed)
                 run_case(ctx, case, seed, observed, inst="plain")
+                if case.family in ("stream", "budget"):
+                    # one caller-owned generator handed to two objects; also with a warm start (update before the first query)
+                    run_case(ctx, case, seed, observed, inst="shared")
+                    if case.family == "budget":
+                        run_case(ctx, case, seed, observed, inst="shared-warm")
                 if case.family in ("classifier", "classifier_ma", "regressor"):
                     # re-used object vs fresh twin: plain data, no labels (every prediction a tie), far test points
                     for lvl in (0, 1, 2):
@@ -290,7 +307,7 @@ def search(ctx):
     flipped = {o["cls"] for o in g["flips"]}
     observed = {}
     t0 = time.time()
-    cases = list(zoo.cases())
+    cases = [c for c in zoo.cases() if "inner-rs-none" not in c.config]
     hist_flipped = getattr(ctx, "hist_flipped", set())
     cases.sort(key=lambda c: (c.cls_name not in hist_flipped, c.cls_name not in flipped, c.cls_name))
     for case in [c for c in cases if c.cls_name in hist_flipped and c.family in ("pool", "pool_ma")]:
